@@ -33,7 +33,9 @@ func mkVia0(r *hx.RNG, v oracle.Val) (*decimal.Decimal, string) {
 		return hx.MkR(r, v, uint(r.Range(0, 60)), r.Mode()), "special"
 	}
 	d := digitsOf(v)
-	switch r.Intn(5) {
+	switch r.Intn(6) {
+	case 5: // a mantissa longer than the precision needs (zero low words): the shape a decoded gob payload may have
+		return hx.MkLong(v, d+uint(r.Intn(3)*r.Intn(20)), r.Mode(), r.Range(1, 9)), "long-mantissa"
 	case 0: // raw words with extra low zero words
 		k := int64(r.Range(1, 5)) * 19
 		w := oracle.Val{Form: oracle.Finite, Neg: v.Neg, Coef: new(big.Int).Mul(v.Coef, oracle.Pow10(k)), Exp: v.Exp - k}
